@@ -18,7 +18,7 @@ b=$(VERIF_REPO="$wt" /verif/baseline.sh | head -1)
 echo "$id: demo on clean exit=$c1 (want 0), demo with change exit=$c2 (want !=0), $b"
 if [ $c1 -eq 0 ] && [ $c2 -ne 0 ] && echo "$b" | grep -q "87/87"; then
   d=/verif/seeded/$id; mkdir -p "$d"
-  cp /tmp/seed-$id.patch "$d/patch.diff"; cp /tmp/seed-$id-demo/* "$d/"
+  cp /tmp/seed-$id.patch "$d/patch.diff"; cp -r /tmp/seed-$id-demo/* "$d/"
   echo "$id: CONFIRMED -> $d"
 fi
 git -C /repo worktree remove --force "$wt"
